@@ -174,3 +174,151 @@ if __name__ == "__main__":
         traceback.print_exc()
         print("CHECKER-ERROR internal exception")
         sys.exit(3)
+
+
+# =========================================================================== parameter cleaners (C20, part of C13/C11)
+def _verify_param(args):
+    name, root = args
+    from . import paramprops, paramcases, smt
+    from .engine import Engine
+    from .values import Unsupported
+
+    t0 = time.time()
+    repo = Repo(root)
+    registry.load(repo)
+    out = {"command": name, "records": [], "error": None, "unsupported": None, "function": None}
+    cis = [c for c in paramprops.param_classes(repo) if c.name == name]
+    if not cis:
+        out["error"] = "parameter class %s not found" % name
+        return out
+    ci = cis[0]
+    fi = repo.find_method(ci, "clean")
+    out["function"] = dict(fi.describe(), verified_for_class=name)
+    eng = Engine(repo, S.CONTRACTS, S.LOOPS)
+    try:
+        paramprops.verify_cleaner(eng, ci)
+    except Unsupported as e:
+        out["unsupported"] = str(e)
+    except Exception as e:
+        import traceback
+
+        out["error"] = "%s: %s\n%s" % (type(e).__name__, e, traceback.format_exc()[-1500:])
+    for r in eng.results:
+        rec = {k: v for k, v in r.items() if k not in ("model_obj", "state")}
+        rec.setdefault("clause", r.get("kind"))
+        if r["status"] == "sat" and "model_obj" in r:
+            try:
+                rec["case"] = paramcases.concretize(eng.psetup, r["model_obj"], name)
+            except Exception as e:
+                rec["case_error"] = "%s: %s" % (type(e).__name__, e)
+        out["records"].append(rec)
+    out["wall_s"] = round(time.time() - t0, 2)
+    return out
+
+
+PARAM_CLAUSES = {
+    "C20": {"typed", "deterministic", "idempotent", "pure", "raises_only", "cover"},
+    "C13": {"raises_only", "str", "cover"},
+    "C11": {"lineno", "cover"},
+}
+
+
+def param_part(rep, prop, tier, seed, clauses=None):
+    """adds the cleaner obligations selected for `prop` to the report"""
+    from concurrent.futures import ProcessPoolExecutor
+    from . import paramprops, paramcases
+
+    root = REPO
+    repo = Repo(root)
+    clauses = clauses or PARAM_CLAUSES[prop]
+    names = [c.name for c in paramprops.param_classes(repo)]
+    with ProcessPoolExecutor(max_workers=min(16, len(names))) as ex:
+        results = list(ex.map(_verify_param, [(n, root) for n in names]))
+    pending = []
+    for out in results:
+        if out["error"]:
+            rep.errors.append("%s: %s" % (out["command"], out["error"]))
+            continue
+        rep.functions.append(out["function"])
+        sel = [r for r in out["records"] if r.get("clause") in clauses]
+        for r in sel:
+            rep.add_vc(r["name"], r["status"], r.get("function"), r.get("clause"), r.get("backend"), r.get("time_s", 0),
+                       detail={"trail": r.get("trail"), "goal": r.get("goal"), "reason": r.get("reason")})
+            if r["status"] == "sat":
+                pending.append((r, out["command"]))
+            elif r["status"] != "unsat":
+                rep.undecided.append({"obligation": r["name"], "reason": r.get("reason") or "solver returned unknown"})
+        if out["unsupported"]:
+            rep.undecided.append({"obligation": "%s.clean/*" % out["command"], "reason": "unsupported construct: %s" % out["unsupported"]})
+        for r in sel[:1]:
+            rep.samples.append({"obligation": r["name"], "clause": r.get("clause"), "goal": r.get("goal"), "verdict": r["status"]})
+    cases = [r.get("case") for r, _ in pending if r.get("case")]
+    outs = paramcases.run_real(cases, root) if cases else []
+    it = iter(outs)
+    for r, cmd in pending:
+        v = {"obligation": r["name"], "function": r.get("function"), "how": "counter-model", "case": r.get("case"),
+             "detail": {"trail": r.get("trail"), "goal": r.get("goal")}, "solver_output": "sat (%s)" % r.get("backend"), "confirmed": False}
+        if r.get("case"):
+            o = next(it)
+            bad = paramcases.violated(r["case"], o)
+            v["real"] = o
+            v["violated"] = [b[0] for b in bad]
+            v["violated_detail"] = bad
+            v["confirmed"] = any(b[0] in clauses for b in bad)
+        rep.violations.append(v)
+    # bounded battery over the value alphabet (labelled bounded)
+    t0 = time.time()
+    bcases = paramcases.battery(names, tier, seed)
+    bouts = paramcases.run_real(bcases, root)
+    distinct, fails = set(), 0
+    for c, o in zip(bcases, bouts):
+        distinct.add(json.dumps([c["cls"], c["ctor"], c["value"], c.get("working_dir")], sort_keys=True))
+        bad = [b for b in paramcases.violated(c, o)]
+        if any(b[0] == "harness-error" for b in bad):
+            rep.errors.append("cleaner battery: %s" % (bad[0][1],))
+            continue
+        rel = [b for b in bad if b[0] in clauses]
+        if rel:
+            fails += 1
+            rep.violations.append({"obligation": "mpilot/params.py::%s.clean/bounded:%s" % (c["cls"], rel[0][0]),
+                                   "function": "mpilot/params.py::%s.clean" % c["cls"], "how": "bounded-concrete", "case": c, "real": o,
+                                   "violated": [b[0] for b in bad], "violated_detail": bad, "confirmed": True})
+    b = {"label": "bounded (never counted as proved)", "evaluations": len(bcases), "distinct_nontrivial": len(distinct), "failures": fails,
+         "wall_s": round(time.time() - t0, 1),
+         "rule": "every parameter class x its configurations x a 51-value alphabet covering every kind the parser/API can deliver "
+                 "(ints, floats, bools, string forms, lists, nested lists, dicts, types, commands, arguments, arrays); each case cleans "
+                 "twice, cleans the result again and compares the raw value before/after; distinct by (class, config, value)"}
+    if rep.bounded is None:
+        rep.bounded = b
+    else:
+        rep.bounded = {"parts": [rep.bounded, b], "evaluations": rep.bounded.get("evaluations", 0) + b["evaluations"],
+                       "distinct_nontrivial": rep.bounded.get("distinct_nontrivial", 0) + b["distinct_nontrivial"], "rule": "see parts"}
+
+    def rerun(w):
+        if not w or w.get("kind") != "clean-case":
+            return None
+        o = paramcases.run_real([w["case"]], root)[0]
+        return [b[0] for b in paramcases.violated(w["case"], o)]
+
+    prev = rep.rerun_witness
+
+    def both(w):
+        r = rerun(w)
+        if r is None and prev is not None:
+            return prev(w)
+        return r
+
+    rep.rerun_witness = both
+    return rep
+
+
+def param_property(prop, tier, seed):
+    rep = Report(prop, tier, seed, "proof", "./check %s --tier %s" % (prop, tier))
+    rep.trusted = ["assumed contracts of Python builtins over the dynamic-value datatype (pyvc/dyn.py, builtins_model.py): int(), float(), "
+                   "str(), bool(), isinstance, os.path.isabs/join/exists (pure), dict lookup (KeyError / TypeError for unhashable keys)",
+                   "A-TUPLE: tuples are not a separate value constructor",
+                   "behavioural contract assumed for sub-parameters (value_type/output_type): raises only the parameter-error family, "
+                   "deterministic, idempotent, never returns an Argument (proved for each of the ten classes = induction on the parameter structure)",
+                   "class invariants of parameter objects: is_fuzzy in {None, True, False}; output_type is None or a Parameter; value_type is a Parameter"]
+    param_part(rep, prop, tier, seed)
+    return rep
